@@ -392,6 +392,8 @@ class Check(common.Check):
                 if rng.random() < 0.08:
                     path = path[1:] or 'x'                      # no leading slash: added by OscFunc
                 src = None if rng.random() < 0.7 else [rng.choice([IP, IP2]), rng.choice([None, 5000, 5001])]
+                if src is not None and rng.random() < 0.4:
+                    src.append('B')                             # src_id is a BundleNetAddr (NetAddr subclass) of that host/port
                 port = None if rng.random() < 0.8 else rng.choice([57120, 57121])
                 tmpl = None if rng.random() < 0.7 else self.g_tmpl(rng)
                 if rng.random() < 0.75 or nfid == 0:
@@ -460,6 +462,34 @@ class Check(common.Check):
         c['udp'] = True
         return c
 
+    def g_hist_reent(self, rng):
+        """a handler registers / enables the responder for a LATER message of the same bundle (written as the
+        sequence recv bundle[m1]; ops; recv bundle[m2, ...] and marked `fuse`: the implementation side sends ONE
+        bundle and lets m1's handler do the ops)"""
+        suf = rng.choice(['', 'x', '/1', '/foo'])
+        a, b = '/a' + suf, '/b' + suf
+        k0, k1 = rng.choice('EP'), rng.choice('EP')
+        ops = [['new', 0, k0, a, None, None, None, 0]]
+        if rng.random() < 0.3:
+            ops.append(['new', 2, rng.choice('EP'), rng.choice([a, b]), None, None, None, 2])
+        if rng.random() < 0.5:
+            script = [['new', 1, k1, b, None, None, None, 1]]
+        else:
+            ops += [['new', 1, k1, b, None, None, None, 1], ['disable', 1]]
+            script = [['enable', 1]]
+        if rng.random() < 0.3:
+            script.append(['new', 3, rng.choice('EP'), b, None, None, None, rng.choice([1, 3])])
+        tt = rng.choice([1, 1, 2 ** 32, 5 * 2 ** 31])
+        now, off = float(rng.choice([100.75, 3.5])).hex(), rng.choice([0, 2 ** 31])
+        rest = [enc_msg(b, self.g_args(rng))] + [enc_msg(rng.choice([a, b]), self.g_args(rng)) for _ in range(rng.randrange(0, 3))]
+        i = len(ops)
+        ops.append(['recv', now, off, 57120, enc_bundle(tt, [enc_msg(a, self.g_args(rng))]).hex(), [IP, 5000], 'strict'])
+        ops += script
+        ops.append(['recv', now, off, 57120, enc_bundle(tt, rest).hex(), [IP, 5000], 'strict'])
+        fuse = [[i, len(ops) - 1]]
+        ops.append(['recv', now, off, 57120, enc_msg(b, self.g_args(rng)).hex(), [IP, 5000], 'strict'])
+        return {'k': 'hist', 'ops': ops, 'fuse': fuse}
+
     def g_sysact(self, rng):
         ops, scripts = [], {}
         for a in range(4):
@@ -489,9 +519,12 @@ class Check(common.Check):
     def g_srvact(self, rng):
         ops = []
         keys = ['default', 'all', 2, 3, 4]
-        for _ in range(rng.randrange(2, 14)):
+        multi = rng.random() < 0.5                                # two or three registries side by side
+        for _ in range(rng.randrange(2, 14) + (6 if multi else 0)):
             r = rng.random()
-            if r < 0.5:
+            if multi and r < 0.2:
+                ops.append(['sel', rng.randrange(3)])
+            elif r < 0.5:
                 ops.append(['add', rng.choice(keys), rng.randrange(5), [rng.randrange(9)]])
             elif r < 0.68:
                 ops.append(['remove', rng.choice(keys), rng.randrange(5)])
@@ -502,6 +535,9 @@ class Check(common.Check):
             else:
                 ops.append(['run', rng.choice([2, 3, 4]), rng.random() < 0.4])
         ops.append(['run', rng.choice([2, 3, 4]), rng.random() < 0.5])
+        if multi:
+            for k in range(3):
+                ops += [['sel', k], ['run', rng.choice([2, 3, 4]), rng.random() < 0.5]]
         return {'k': 'srvact', 'ops': ops}
 
     def g_notif(self, rng):
@@ -541,8 +577,10 @@ class Check(common.Check):
             return {'k': 'dec', 'hex': hexd, 'tag': tag}
         if r < 0.81:
             return self.g_hist(rng)
-        if r < 0.85:
+        if r < 0.84:
             return self.g_hist_udp(rng)
+        if r < 0.85:
+            return self.g_hist_reent(rng)
         if r < 0.91:
             return self.g_sysact(rng)
         if r < 0.96:
@@ -637,7 +675,9 @@ class Check(common.Check):
                 key = {'default': 0, 'all': 1}
                 lines.append('srv reset')
                 for op in c['ops']:
-                    if op[0] == 'add':
+                    if op[0] == 'sel':
+                        lines.append(f'srv sel {op[1]}')
+                    elif op[0] == 'add':
                         lines.append(f'srv add {key.get(op[1], op[1])} {op[2]} {op[3][0]}')
                     elif op[0] == 'remove':
                         lines.append(f'srv remove {key.get(op[1], op[1])} {op[2]}')
@@ -1099,9 +1139,12 @@ class Check(common.Check):
             reg.clear()
 
     def oracle_srvact(self, c, o):
-        reg = {}
+        regs = {0: {}}
+        reg = regs[0]
         for i, op in enumerate(c['ops']):
-            if op[0] == 'add':
+            if op[0] == 'sel':
+                reg = regs.setdefault(op[1], {})                  # each registry is a table of its own
+            elif op[0] == 'add':
                 reg.setdefault(op[1], {})[op[2]] = op[3][0]
             elif op[0] == 'remove':
                 reg.get(op[1], {}).pop(op[2], None)
@@ -1183,6 +1226,8 @@ class Check(common.Check):
         return h
 
     def shrink(self, c, fails):
+        if c.get('fuse'):
+            return c                                              # op indices are part of the case
         if c['k'] in ('hist', 'sysact', 'srvact', 'notif') and len(c['ops']) > 1:
             return dict(c, ops=common.shrink_list(c['ops'], lambda l: fails(dict(c, ops=l))))
         return c
